@@ -28,6 +28,34 @@ type Intent struct {
 	// origin (other scheme, or a fronting proxy); still cross-origin for the
 	// browser when schemes differ, and in any case nothing the verdict may depend on
 	SameHost bool `json:"same_host,omitempty"`
+	// UA selects the bystander headers this browser attaches (0: none, as before):
+	// Fetch metadata as browsers send it on cross-origin fetches, Referer, Accept,
+	// User-Agent; the credentials themselves on the actual request when Creds.
+	// Nothing the verdict may depend on.
+	UA int `json:"ua,omitempty"`
+}
+
+// uaHeaders: what a browser of kind ua adds to a cross-origin request of the
+// given stage. A cross-origin fetch is never labelled same-origin.
+func uaHeaders(in Intent, preflight bool) []HV {
+	var h []HV
+	switch in.UA % 4 {
+	case 0:
+		return nil
+	case 1, 2:
+		site := "cross-site"
+		if in.UA%4 == 2 {
+			site = "same-site"
+		}
+		h = append(h, HV{"Sec-Fetch-Mode", []string{"cors"}}, HV{"Sec-Fetch-Site", []string{site}}, HV{"Sec-Fetch-Dest", []string{"empty"}},
+			HV{"Accept", []string{"*/*"}}, HV{"User-Agent", []string{"Mozilla/5.0"}}, HV{"Referer", []string{in.Origin + "/"}})
+	case 3: // browser predating Fetch metadata
+		h = append(h, HV{"Accept", []string{"*/*"}}, HV{"Referer", []string{in.Origin + "/page"}}, HV{"Connection", []string{"keep-alive"}})
+	}
+	if in.Creds && !preflight {
+		h = append(h, HV{"Cookie", []string{"sid=1"}})
+	}
+	return h
 }
 
 // Alteration is one in-flight change of the ACRH field (fault F5).
@@ -82,7 +110,7 @@ func (c02) FaultKinds() []string {
 	return []string{"F5_ows", "F5_empty_elements", "F5_split_lines", "F5_empty_line", "F5_ows_around_empty_element"}
 }
 func (c02) Probes() []string {
-	return []string{"verdict_success", "verdict_fail_preflight", "verdict_fail_actual", "preflight_needed", "no_preflight_needed", "debug_on_failing_preflight", "authorization_under_star", "credentialed_intent", "pna_intent", "method_normalised", "altered_preflight_sent", "state_reached_via_history_route"}
+	return []string{"verdict_success", "verdict_fail_preflight", "verdict_fail_actual", "preflight_needed", "no_preflight_needed", "debug_on_failing_preflight", "authorization_under_star", "credentialed_intent", "pna_intent", "method_normalised", "altered_preflight_sent", "state_reached_via_history_route", "browser_bystander_headers"}
 }
 
 var c02HeaderUniverse = []string{"authorization", "content-type", "x-foo", "x-bar", "x-baz-qux", "accept", "cache-control", "x-a", "x-requested-with", "x-not-listed",
@@ -150,6 +178,9 @@ func genIntent(r *R, c Cfg) Intent {
 	in.Creds = r.P(0.35)
 	in.PNA = r.P(0.25)
 	in.SameHost = r.P(0.15)
+	if r.P(0.5) {
+		in.UA = r.Range(1, 3)
+	}
 	return in
 }
 
@@ -465,6 +496,10 @@ func browserFetch(srv *mwServer, in Intent, alts []Alteration, c *Ctx, trace *[]
 		if in.PNA {
 			q.H = append(q.H, HV{hACRPN, []string{"true"}})
 		}
+		if ua := uaHeaders(in, true); ua != nil {
+			q = q.withNoise(ua)
+			c.hit("browser_bystander_headers")
+		}
 		resp := srv.do(q)
 		*trace = append(*trace, fmt.Sprintf("preflight %s -> %s", q, resp))
 		if resp.Panic != "" {
@@ -507,6 +542,7 @@ func browserFetch(srv *mwServer, in Intent, alts []Alteration, c *Ctx, trace *[]
 	for _, n := range in.Headers {
 		q.H = append(q.H, HV{canonical(n), []string{"v"}})
 	}
+	q = q.withNoise(uaHeaders(in, false))
 	resp := srv.do(q)
 	*trace = append(*trace, fmt.Sprintf("actual %s -> %s", q, resp))
 	if resp.Panic != "" {
@@ -783,6 +819,12 @@ func (c02) Shrink(plan any) []any {
 			q := *p
 			q.Intents = append([]Intent{}, p.Intents...)
 			q.Intents[i].PNA = false
+			out = append(out, &q)
+		}
+		if in.UA != 0 || in.SameHost {
+			q := *p
+			q.Intents = append([]Intent{}, p.Intents...)
+			q.Intents[i].UA, q.Intents[i].SameHost = 0, false
 			out = append(out, &q)
 		}
 		if in.Method != "GET" {
